@@ -823,6 +823,7 @@ Qed.
 
 (* ---------- OpenFile ---------- *)
 Lemma copyfiletolayer_clears_append_is_1 : copyfiletolayer_clears_append = 1. Proof. reflexivity. Qed.
+Lemma copyfiletolayer_reads_through_rdwr_is_1 : copyfiletolayer_reads_through_rdwr = 1. Proof. reflexivity. Qed.
 Lemma cache_openfile_clears_excl_is_1 : cache_openfile_clears_excl = 1. Proof. reflexivity. Qed.
 (* CacheOnReadFs.OpenFile makes a directory of the base in the layer instead of copying it like a file.
    Compiles iff Gen/Consts.v (read from cacheOnReadFs.go) says so. *)
